@@ -50,8 +50,9 @@ class Ctx(object):
         if only and only not in scn.name:
             return None
         kw.setdefault('seed', self.seed)
-        # a safety net, not a budget: scenarios are sized to finish well inside it; a cap that is hit is reported
-        kw.setdefault('max_seconds', int(os.environ.get('VERIF_SCENARIO_CAP_S', '900' if self.quick else '5400')))
+        # quick: a safety net (scenarios finish well inside it).  thorough: a real bound per scenario -- BFS is level-
+        # synchronous, so a capped scenario has still covered EVERY history up to its reported max_depth; the cap is reported
+        kw.setdefault('max_seconds', int(os.environ.get('VERIF_SCENARIO_CAP_S', '900' if self.quick else '300')))
         kw.setdefault('log', self.log if os.environ.get('VERIF_VERBOSE') else None)
         try:
             r = explorer.explore(scn, mon_cls, **kw)
